@@ -2,26 +2,11 @@
 From PegV Require Import Base.Tac Base.ListX Spec.Syntax Model.Calls Reader.Base Reader.Lex Reader.Chars Reader.Lits Reader.Expr Reader.Decide Reader.File.
 Local Open Scope Z_scope.
 
-Definition nolbb (body : list rune) : bool := forallb (fun c => negb ((c =? 10) || (c =? 13))) body.
 Lemma nolbb_sound body : nolbb body = true -> nolb body.
 Proof.
   unfold nolbb, nolb. intros H. apply Forall_forall. intros c Hc. pose proof (proj1 (forallb_forall _ _) H c Hc) as E.
   apply negb_true_iff in E. lia.
 Qed.
-Definition eol_kind (e : list rune) : nat :=
-  match e with
-  | [c] => if c =? 10 then 1%nat else if c =? 13 then 2%nat else 0%nat
-  | [c; d] => if (c =? 13) && (d =? 10) then 3%nat else 0%nat
-  | _ => 0%nat
-  end.
-Definition hitem_okb (h : hitem) (tl : list rune) : bool :=
-  match h with
-  | HCmt _ body e => nolbb body && negb (Nat.eqb (eol_kind e) 0) && (if Nat.eqb (eol_kind e) 2 then negb (head_is 10 tl) else true)
-  | HSp run => match run with [] => false | _ => true end && forallb is_sp run && negb (match tl with c :: _ => is_sp c | [] => false end)
-  end.
-Fixpoint header_okb (l : list hitem) (tl : list rune) : bool :=
-  match l with [] => true | h :: l' => hitem_okb h (flat_map hshow l' ++ tl) && header_okb l' tl end.
-
 Lemma eol_kind_sound e : eol_kind e <> 0%nat -> is_eol e /\ (e = [13] <-> eol_kind e = 2%nat).
 Proof.
   unfold eol_kind, is_eol. destruct e as [|c [|d [|? ?]]]; try congruence.
@@ -42,20 +27,12 @@ Proof.
     split; [destruct run; [discriminate|discriminate]|]. split; [exact H2|]. intros c r E. rewrite E in H3. apply negb_true_iff in H3. exact H3.
 Qed.
 
-Definition iname_okb (n : iname) : bool :=
-  match in_path n with [] => false | _ => true end && forallb is_pathc (in_path n) &&
-  match in_alias n with Some (id, s) => ident_ok id && layb s | None => true end.
 Lemma iname_okb_sound n : iname_okb n = true -> iname_ok n.
 Proof.
   unfold iname_okb, iname_ok. intros H. apply andb_true_iff in H. destruct H as [H H3]. apply andb_true_iff in H. destruct H as [H1 H2].
   split; [destruct (in_path n); [discriminate|discriminate]|]. split; [exact H2|].
   destruct (in_alias n) as [[id s]|]; [|exact I]. apply andb_true_iff in H3. destruct H3. split; [assumption|apply layb_sound; assumption].
 Qed.
-Definition imp_okb (i : imp) : bool :=
-  match i with
-  | ISingle s1 n s2 => layb s1 && iname_okb n && layb s2
-  | IMulti s1 s2 items s3 => layb s1 && layb s2 && layb s3 && forallb (fun ns : iname * list rune => iname_okb (fst ns) && layb (snd ns)) items
-  end.
 Lemma imp_okb_sound i : imp_okb i = true -> imp_ok i.
 Proof.
   destruct i as [s1 n s2|s1 s2 items s3]; cbn [imp_okb imp_ok]; intros H; repeat (apply andb_true_iff in H; destruct H as [H ?]).
@@ -64,12 +41,6 @@ Proof.
     apply Forall_forall. intros ns Hin. match goal with F : forallb _ items = true |- _ => pose proof (proj1 (forallb_forall _ _) F ns Hin) as Hf end.
     apply andb_true_iff in Hf. destruct Hf. split; [apply iname_okb_sound; assumption|apply layb_sound; assumption].
 Qed.
-Definition def_okb (d : cdef) : bool := ident_ok (d_name d) && layb (d_s1 d) && layb (d_s2 d) && wfb (d_body d).
-Fixpoint defs_okb (l : list cdef) : bool :=
-  match l with
-  | [] => true
-  | d :: l' => def_okb d && (match l' with [] => true | _ => negb (glue (d_body d)) end) && defs_okb l'
-  end.
 Lemma defs_okb_sound l : defs_okb l = true -> defs_ok l.
 Proof.
   induction l as [|d l IH]; cbn [defs_okb defs_ok]; [auto|]. intros H. apply andb_true_iff in H. destruct H as [H H3]. apply andb_true_iff in H. destruct H as [H1 H2].
@@ -78,13 +49,6 @@ Proof.
     split; [exact H1|]. split; [apply layb_sound; assumption|]. split; [apply layb_sound; assumption|apply wfb_wf; assumption].
   - intros Hne. destruct l; [congruence|]. apply negb_true_iff in H2. exact H2.
 Qed.
-Definition nonempty {A} (l : list A) : bool := match l with [] => false | _ => true end.
-Definition file_okb (f : cfile) : bool :=
-  header_okb (f_header f) [112] &&
-  layb (f_s_pkg f) && nonempty (f_s_pkg f) && ident_ok (f_pkg f) && layb (f_s1 f) && nonempty (f_s1 f) &&
-  forallb imp_okb (f_imports f) &&
-  layb (f_s_type f) && nonempty (f_s_type f) && ident_ok (f_peg f) && layb (f_s2 f) && nonempty (f_s2 f) &&
-  layb (f_s3 f) && balb 0 (f_state f) && layb (f_s4 f) && nonempty (f_defs f) && defs_okb (f_defs f).
 Lemma nonempty_ne {A} (l : list A) : nonempty l = true -> l <> [].
 Proof. destruct l; [discriminate|discriminate]. Qed.
 Theorem file_okb_sound f : file_okb f = true -> file_ok f.
